@@ -303,30 +303,48 @@ struct SigImpl : ISig
       long a[4];
     } pad{{cid, cid, cid, cid}};
     World *wp = &w;
+    // the callables are the caller's: building them is not a fault site of the library
+    sim::fault::Harness build_scope;
+    auto const call_connect = [this](auto &&...a) {
+      sim::fault::Sut s;
+      return sig->connect(std::forward<decltype(a)>(a)...);
+    };
     if constexpr (Value)
     {
       typename Signal::function f{[wp, cid, pad](Payload arg) -> result_t { return wp->on_call(cid + 0 * pad.a[0], arg.seen()); }};
       if constexpr (Unreg)
-        return sig->connect(std::move(f), fcppt::signal::unregister::function{[wp, cid, pad] { wp->on_unregister(cid + 0 * pad.a[1]); }});
+        return call_connect(std::move(f), fcppt::signal::unregister::function{[wp, cid, pad] { wp->on_unregister(cid + 0 * pad.a[1]); }});
       else
-        return sig->connect(std::move(f));
+        return call_connect(std::move(f));
     }
     else
     {
       typename Signal::function f{[wp, cid, pad](Payload arg) { wp->on_call(cid + 0 * pad.a[0], arg.seen()); }};
       if constexpr (Unreg)
-        return sig->connect(std::move(f), fcppt::signal::unregister::function{[wp, cid, pad] { wp->on_unregister(cid + 0 * pad.a[1]); }});
+        return call_connect(std::move(f), fcppt::signal::unregister::function{[wp, cid, pad] { wp->on_unregister(cid + 0 * pad.a[1]); }});
       else
-        return sig->connect(std::move(f));
+        return call_connect(std::move(f));
     }
   }
   std::optional<result_t> call(result_t initial, unsigned arg) override
   {
     if constexpr (Value)
-      return (*sig)(typename Signal::initial_value{initial}, Payload(arg));
+    {
+      std::optional<Payload> payload;
+      {
+        sim::fault::Harness h;
+        payload.emplace(arg);
+      }
+      return (*sig)(typename Signal::initial_value{initial}, *payload);
+    }
     else
     {
-      (*sig)(Payload(arg));
+      std::optional<Payload> payload;
+      {
+        sim::fault::Harness h;
+        payload.emplace(arg);
+      }
+      (*sig)(*payload);
       return std::nullopt;
     }
   }
@@ -545,21 +563,44 @@ void World::run_op(sim::Op const &op)
         List &x = *lists[dst];
         x = std::move(*lists[src]);
       });
+      // self-move is not mentioned by the property: the list may be unchanged or have let go of
+      // its members (which are then in no list); anything else shows up in the checks below
+      if (lists[dst]->empty() && !mlist[dst].empty())
+      {
+        for (unsigned e = 0; e < ELEMS; ++e)
+          if (where[e] == dst)
+            where[e] = -1;
+        mlist[dst].clear();
+        ctx.probe("self_move_emptied_the_list");
+      }
       ctx.ev("list_self_move_assign " + std::to_string(src));
       return;
     }
     ctx.probe(std::string("list_move_assign_") + (mlist[src].empty() ? "empty" : "nonempty") + "_to_" + (mlist[dst].empty() ? "empty" : "nonempty"));
     nothrow(n, [&] { *lists[dst] = std::move(*lists[src]); });
-    // dst's previous members are orphaned: in no list, but still safely movable/destructible
+    // dst now holds src's members. What becomes of dst's PREVIOUS members is not fixed by the
+    // property: they may be orphaned (in no list, still safely movable/destructible - what the
+    // implementation does) or end up in the moved-from source (swap idiom). Read the source back.
+    std::vector<long> const dst_old = mlist[dst];
+    std::vector<long> src_now;
+    for (auto it = lists[src]->begin(); it != lists[src]->end(); ++it)
+    {
+      SIM_CHECK(src_now.size() < ELEMS + 2, "ring", n + ": iteration of the moved-from list does not terminate");
+      src_now.push_back(it->id);
+    }
+    bool const swapped = !src_now.empty() && src_now == dst_old;
+    SIM_CHECK(src_now.empty() || swapped, "membership", n + ": the moved-from list contains " + vstr(src_now) + ", neither nothing nor the target's previous members " + vstr(dst_old));
     for (unsigned e = 0; e < ELEMS; ++e)
     {
       if (where[e] == dst)
-        where[e] = -1;
+        where[e] = swapped ? src : -1;
       else if (where[e] == src)
         where[e] = dst;
     }
     mlist[dst] = mlist[src];
-    mlist[src].clear();
+    mlist[src] = swapped ? dst_old : std::vector<long>{};
+    if (swapped)
+      ctx.probe("list_move_assign_swapped");
     ctx.ev("list_move_assign " + std::to_string(src) + " -> " + std::to_string(dst));
     return;
   }
@@ -635,6 +676,19 @@ void World::run_op(sim::Op const &op)
         Elem &x = *elems[dst];
         x = std::move(*elems[src]);
       });
+      // self-move: unchanged, or unlinked (a moved-from element is not a member) - read back
+      if (where[dst] >= 0)
+      {
+        bool still = false;
+        std::size_t guard = 0;
+        for (auto it = lists[where[dst]]->begin(); it != lists[where[dst]]->end() && guard < ELEMS + 2; ++it, ++guard)
+          still = still || it->id == elems[dst]->id;
+        if (!still)
+        {
+          model_remove_elem(static_cast<unsigned>(dst));
+          ctx.probe("self_move_unlinked_the_element");
+        }
+      }
       ctx.ev("elem_self_move_assign");
       return;
     }
@@ -744,18 +798,28 @@ void World::run_op(sim::Op const &op)
       return;
     ctx.probe(std::string("sig_move_assign_") + (msig[src].empty() ? "empty" : "nonempty") + "_to_" + (msig[dst].empty() ? "empty" : "nonempty"));
     nothrow(n, [&] { sigs[dst]->move_assign_from(*sigs[src]); });
+    // as for lists: the target's previous connections are orphaned or (swap idiom) now belong to
+    // the moved-from source, which is not used any further either way
+    std::vector<long> const dst_old = msig[dst];
+    unsigned const dst_old_comb = sig_comb[dst];
+    bool const swapped = !sigs[src]->empty() && !dst_old.empty();
     for (auto &c : conns)
     {
       if (!c)
         continue;
       if (c->sig == dst)
-        c->sig = -1; // orphaned: nobody calls it any more, it still dies safely
+        c->sig = swapped ? src : -1;
       else if (c->sig == src)
         c->sig = dst;
     }
     msig[dst] = msig[src];
-    msig[src].clear();
+    msig[src] = swapped ? dst_old : std::vector<long>{};
     sig_comb[dst] = sig_comb[src];
+    if (swapped)
+    {
+      sig_comb[src] = dst_old_comb;
+      ctx.probe("sig_move_assign_swapped");
+    }
     sig_moved_from[dst] = false;
     sig_moved_from[src] = true;
     ctx.ev("sig_move_assign " + std::to_string(src) + " -> " + std::to_string(dst));
